@@ -624,6 +624,13 @@ class O5mEncoder {
     // `content` is the body after the leading zero byte (one or two zero-terminated strings); `chars` is its length for the
     // 250-character rule. Strings whose length is close to the limit are never generated (the descriptions differ in how they count).
     void put_string(std::string& o, const std::string& content, size_t chars) {
+        if (bad_reference_pending) {
+            bad_reference_pending = false;
+            uvar(o, hostile->reference);
+            hostile->fired = true;
+            hostile->what += " string reference " + std::to_string(hostile->reference) + " with " + std::to_string(table.size()) + " strings in the table;";
+            return;
+        }
         const bool storable = chars <= 250;
         if (storable) {
             for (size_t i = 0; i < table.size(); ++i) {
@@ -692,11 +699,35 @@ class O5mEncoder {
         for (const auto& t : x.tags) put_pair(o, t.k, t.v);
     }
 
-    void dataset(std::string& out, unsigned char type, const std::string& body) {
+    void dataset(std::string& out, unsigned char type, const std::string& body, int64_t length_delta = 0) {
         out += static_cast<char>(type);
-        uvar(out, body.size());
+        uvar(out, static_cast<uint64_t>(static_cast<int64_t>(body.size()) + length_delta));
         out += body;
     }
+
+  public:
+    // Hostile mode (C03): a file whose datasets are well-formed varints and strings, but one object (the `target`-th) is inconsistent in
+    // one or two generated places: the declared length of its reference section (way nodes / relation members) is wrong, its body ends
+    // early at a field boundary (with a dataset length that says so, or not), its dataset length is wrong, or one of its string
+    // references points outside the table. Inactive unless set.
+    struct Hostile {
+        size_t target = 0;
+        bool alter_reflen = false;
+        unsigned reflen_mode = 0;   // 0: 0, 1: 1, 2: 2, 3: actual-1, 4: actual+1, 5: actual+extra
+        uint64_t extra = 0;
+        bool cut_body = false;
+        uint64_t cut_pick = 0;      // which field boundary (modulo their number)
+        bool alter_length = false;
+        int64_t length_delta = 0;
+        bool bad_reference = false;
+        uint64_t reference = 0;     // what is written instead of the first string reference or inline string of the object
+        bool fired = false;
+        std::string what;
+    };
+    Hostile* hostile = nullptr;
+
+  private:
+    bool bad_reference_pending = false;
 
   public:
     O5mEncoder(Src& src, Choices& c) : s(src), ch(c) {}
@@ -739,42 +770,90 @@ class O5mEncoder {
                 dataset(o, kinds[s.draw(5)], junk);
                 ch.note("o5m-skippable-dataset");
             }
+            const bool hit = hostile && static_cast<size_t>(&x - data.data()) == hostile->target;
+            if (hit && hostile->bad_reference) bad_reference_pending = true;
+            std::vector<size_t> marks;  // field boundaries inside the body (for the hostile mode's early end)
+            auto reflen = [&](size_t actual) -> uint64_t {
+                if (!hit || !hostile->alter_reflen) return actual;
+                uint64_t v = actual;
+                switch (hostile->reflen_mode % 6) {
+                    case 0: v = 0; break;
+                    case 1: v = 1; break;
+                    case 2: v = 2; break;
+                    case 3: v = actual ? actual - 1 : 7; break;
+                    case 4: v = actual + 1; break;
+                    default: v = actual + hostile->extra; break;
+                }
+                if (v != actual) {
+                    hostile->fired = true;
+                    hostile->what += " reference section of " + std::to_string(actual) + " bytes declared as " + std::to_string(v) + ";";
+                }
+                return v;
+            };
             std::string b;
             svar(b, static_cast<int64_t>(static_cast<uint64_t>(x.id) - static_cast<uint64_t>(d_id)));
             d_id = x.id;
+            marks.push_back(b.size());
             put_info(b, x);
+            marks.push_back(b.size());
             if (!x.visible) {
                 ch.note("o5m-deleted-object");
             } else if (x.type == model::NODE) {
                 svar(b, static_cast<int64_t>(x.loc.x) - d_lon);
+                marks.push_back(b.size());
                 svar(b, static_cast<int64_t>(x.loc.y) - d_lat);
+                marks.push_back(b.size());
                 d_lon = x.loc.x;
                 d_lat = x.loc.y;
                 put_tags(b, x);
             } else if (x.type == model::WAY) {
                 std::string r;
+                std::vector<size_t> rmarks;
                 for (const auto& nr : x.refs) {
                     svar(r, static_cast<int64_t>(static_cast<uint64_t>(nr.ref) - static_cast<uint64_t>(d_wn)));
                     d_wn = nr.ref;
+                    rmarks.push_back(r.size());
                 }
-                uvar(b, r.size());
+                uvar(b, reflen(r.size()));
+                marks.push_back(b.size());
+                for (size_t m : rmarks) marks.push_back(b.size() + m);
                 b += r;
                 put_tags(b, x);
             } else {
                 std::string r;
+                std::vector<size_t> rmarks;
                 for (const auto& m : x.members) {
                     svar(r, static_cast<int64_t>(static_cast<uint64_t>(m.ref) - static_cast<uint64_t>(d_mem[m.type])));
                     d_mem[m.type] = m.ref;
+                    rmarks.push_back(r.size());
                     std::string c(1, static_cast<char>('0' + m.type));
                     c += m.role;
                     c += '\0';
                     put_string(r, c, 1 + m.role.size());
+                    rmarks.push_back(r.size());
                 }
-                uvar(b, r.size());
+                uvar(b, reflen(r.size()));
+                marks.push_back(b.size());
+                for (size_t m : rmarks) marks.push_back(b.size() + m);
                 b += r;
                 put_tags(b, x);
             }
-            dataset(o, x.type == model::NODE ? 0x10 : x.type == model::WAY ? 0x11 : 0x12, b);
+            bad_reference_pending = false;
+            int64_t length_delta = 0;
+            if (hit && hostile->cut_body && !marks.empty()) {
+                const size_t at = marks[hostile->cut_pick % marks.size()];
+                if (at < b.size()) {
+                    hostile->fired = true;
+                    hostile->what += " body of " + std::to_string(b.size()) + " bytes ends after " + std::to_string(at) + ";";
+                    b.resize(at);
+                }
+            }
+            if (hit && hostile->alter_length && static_cast<int64_t>(b.size()) + hostile->length_delta >= 0) {
+                length_delta = hostile->length_delta;
+                hostile->fired = true;
+                hostile->what += " dataset of " + std::to_string(b.size()) + " bytes declared as " + std::to_string(static_cast<int64_t>(b.size()) + length_delta) + ";";
+            }
+            dataset(o, x.type == model::NODE ? 0x10 : x.type == model::WAY ? 0x11 : 0x12, b, length_delta);
         }
         if (s.chance(2, 3)) o += static_cast<char>(0xfe);
         else ch.note("o5m-no-end-marker");
